@@ -189,9 +189,12 @@ func elkScens(scs []scen, rounds int) {
 				runs++
 			case <-time.After(60 * time.Second):
 				// not a verdict of this pass (deadlocks are decided by the exhaustive exploration)
-				fmt.Println("SKIP", sc.Name, "round did not finish within 60s; remaining rounds skipped")
+				fmt.Println("SKIP", sc.Name, "round did not finish within 60s; the pass stops here (its goroutines are still alive: resetting the runtime under them would race)")
 				hung = true
 			}
+		}
+		if hung {
+			break
 		}
 		elkrun.ResetRuntime()
 	}
